@@ -93,13 +93,16 @@ contract(
 
 contract(
     "liquid2.context:RenderContext.get_output_buffer",
-    props=["C06"],
+    props=["C06", "C18", "C01"],
     params={"self": CTX(), "parent_buffer": Union(NoneT, Rec("LimitedStringIO", _module="liquid2.output", size=Int, limit=Int),
-                                                  Rec("StringIO", _module=None))},
+                                                  Rec("StringIO", _module=None), Rec("NullIO", _module="liquid2.output"))},
     pre=["implies(parent_buffer is not None and isinstance(parent_buffer, LimitedStringIO), parent_buffer.size >= 0)"],
     post=[
         # no limit configured: plain buffer; limit configured: the child may write at most what the parent has left
         "iff(self.env.output_stream_limit is None, not isinstance(result, LimitedStringIO))",
+        # what a capture (or block.super) writes is kept in a buffer of its own, whatever the parent is - a discarding
+        # NullIO of a suppressed blank block included: suppression drops whitespace, never captured text
+        "result is not parent_buffer and not isinstance(result, NullIO)",
         "implies(self.env.output_stream_limit is not None and parent_buffer is not None and isinstance(parent_buffer, LimitedStringIO), "
         "result.limit == self.env.output_stream_limit - parent_buffer.size and result.size == 0)",
         "implies(self.env.output_stream_limit is not None and not (parent_buffer is not None and isinstance(parent_buffer, LimitedStringIO)), "
